@@ -8,7 +8,7 @@ SD = os.path.join(HERE, 'seeded')
 WT = os.environ.get('SEEDED_WT', '/var/tmp/nmv-seeded-wt')
 def sh(*a, **k): return subprocess.run(a, capture_output=True, text=True, **k)
 ids = sys.argv[1:] or sorted(d for d in os.listdir(SD) if os.path.isdir(os.path.join(SD, d)))
-res_path = os.path.join(SD, 'RESULTS.json')
+res_path = os.environ.get('SEEDED_RESULTS', os.path.join(SD, 'RESULTS.json'))     # shards: one result file each, merged afterwards
 res = json.load(open(res_path)) if os.path.exists(res_path) else {}
 sh('git', '-C', '/repo', 'worktree', 'remove', '--force', WT)
 r = sh('git', '-C', '/repo', 'worktree', 'add', '--detach', WT, 'HEAD')
